@@ -356,7 +356,7 @@ class sptensor:
             # Squeeze to convert from column vector to row vector
             newvals = accumarray(
                 loc.flatten(),
-                np.squeeze(vals),
+                vals.reshape(-1),  # (squeeze would turn a single value into a 0-d array)
                 size=newsubs.shape[0],
                 func=function_handle,
             )
